@@ -25,6 +25,7 @@ def sh(cmd, cwd, timeout=1800, env=ENV):
 def main():
     prop, wt, sid = sys.argv[1], sys.argv[2].rstrip("/"), sys.argv[3]
     tier = "quick"
+    race = False
     checks = [prop]
     a = sys.argv[4:]
     while a:
@@ -32,6 +33,8 @@ def main():
             tier = a[1]; a = a[2:]
         elif a[0] == "--checks":
             checks = a[1].split(","); a = a[2:]
+        elif a[0] == "--race":
+            race = True; a = a[1:]
         else:
             a = a[1:]
     res = dict(property=prop, worktree=wt, seed_id=sid, ran=[])
@@ -107,6 +110,9 @@ def main():
     names = re.findall(r"func (Test\w+)\(", open(os.path.join(wt, demo)).read())
     if names:
         run_demo = f"flock /tmp/.dastard-repotest.lock go test -vet=off -count=1 -run '^({'|'.join(names)})$' {demo_pkg} 2>&1 | tail -30"
+    if race or (saved and oldmeta.get("demo_needs_race")):
+        run_demo = run_demo.replace("go test -vet=off", "go test -race -vet=off")
+        res["demo_needs_race"] = True
     rc_w, o_w = sh(run_demo + "; exit ${PIPESTATUS[0]}", wt)
     sh(f"git apply -R {patch}", wt)
     rc_wo, o_wo = sh(run_demo + "; exit ${PIPESTATUS[0]}", wt)
